@@ -337,6 +337,155 @@ def literal_agreement_programs(rng, per_prog=9):
     return out
 
 
+# ---------------------------------------------------------------- later cases whose pattern cannot be evaluated
+# "no pattern of a later case is evaluated": a literal pattern whose evaluation is an error (a string with an escape other
+# than \n \t \\, a string ending in a lone backslash, a number too large to read) in a case AFTER the one that matches must
+# never be touched, alone, among alternatives or inside (nested) array patterns, on the first evaluation of the match
+# expression and on every later one.  A top-level faulting string pattern that IS reached stops the run there.
+FAULT_STRS = ['"\\q"', "'a\\zb'", '"C:\\data"', '"a\\"', "'\\'", '"\\x41"', '"\\u00e9"', '"\\0"', '"\\ "', '"%d\\%%"', '"\\N"', '"tab\\T"']
+FAULT_NUMS = ["9" * 400, "1" + "0" * 309, "17976931348623159" + "0" * 292 + ".5"]
+
+
+def fault_pattern(rng, subj, allow_top=True):
+    """(kind, source): kind 'fault' = a faulting literal at the top level of an alternative, 'arrfault' = inside an array pattern
+    shaped after the subject (so that, were it reached, the elements before it would mostly match)"""
+    bad = rng.choice(FAULT_STRS) if rng.random() < 0.75 else rng.choice(FAULT_NUMS)
+    if allow_top and (not isinstance(subj, list) or rng.random() < 0.35):
+        return ("fault", bad)
+
+    def shape(v, d):
+        """array pattern source following v with `bad` at one position"""
+        if not isinstance(v, list) or not v:
+            n = rng.randint(1, 3)
+            items = [rng.choice(["_", "1", '"a"', "x"]) for _ in range(n)]
+            items[rng.randrange(n)] = bad
+            return "[" + ", ".join(items) + "]"
+        j = rng.randrange(len(v))
+        items = []
+        for i, x in enumerate(v):
+            if i == j:
+                items.append(shape(x, d - 1) if isinstance(x, list) and d > 0 and rng.random() < 0.6 else bad)
+            elif is_literal(x) and not (isinstance(x, str) and ("\\" in x or '"' in x)) and rng.random() < 0.6:
+                items.append(pyref.literal(x))
+            else:
+                items.append(rng.choice(NAMES))
+        if rng.random() < 0.2:
+            items.append(bad)
+        return "[" + ", ".join(items) + "]"
+    return ("arrfault", shape(subj if isinstance(subj, list) else [subj], 2))
+
+
+def first_match(subj, cases):
+    """index of the first case with a matching alternative; None if none; 'fault' / 'arrfault' if such an alternative comes
+    first; RuntimeErr from == propagates"""
+    for i, c in enumerate(cases):
+        for alt in c["alts"]:
+            if alt[0] in ("fault", "arrfault"):
+                return alt[0]
+            if matches(subj, alt) is not None:
+                return i
+    return None
+
+
+def build_fault(rng, cid, n_subj):
+    for _ in range(50):
+        subjects = []
+        s0 = subject(rng, rng.choice([0, 1, 2, 2, 3]))
+        if V.has_unset(s0):
+            continue
+        cases = [c for c in make_cases(rng, s0) if c["alts"][0][0] != "bad"]
+        if not cases:
+            continue
+        try:
+            m0 = first_match(s0, cases)
+        except RuntimeErr:
+            continue
+        if not isinstance(m0, int):
+            # make sure something matches: a catch-all case at a random later position
+            cases.append({"alts": [("id", rng.choice(NAMES))], "body": "const", "label": "LC", "show": [], "const": "all"})
+            m0 = len(cases) - 1
+        # faulting cases after the matching one (and sometimes extra faulting alternatives in even later cases)
+        nf = rng.choice([1, 1, 2, 3])
+        for k in range(nf):
+            pos = rng.randint(m0 + 1, len(cases))
+            alts = [fault_pattern(rng, s0)]
+            if rng.random() < 0.4:
+                pg = PatGen(rng)
+                alts.insert(rng.randint(0, 1), pg.alternative(s0, miss=rng.random() < 0.7))
+            if rng.random() < 0.2:
+                alts.append(fault_pattern(rng, s0))
+            cases.insert(pos, {"alts": alts, "body": rng.choice(["const", "block"]), "label": "LF%d" % k, "show": [], "const": "never"})
+        # the subjects of the successive evaluations: the first one, itself again, others that stop before any faulting case,
+        # and (last, sometimes) one that reaches a top-level faulting string literal
+        subjects = [s0]
+        tries = 0
+        while len(subjects) < n_subj and tries < 40:
+            tries += 1
+            sj = s0 if rng.random() < 0.3 else subject(rng, rng.choice([0, 1, 2]))
+            if V.has_unset(sj):
+                continue
+            try:
+                mj = first_match(sj, cases)
+            except RuntimeErr:
+                continue
+            if isinstance(mj, int):
+                subjects.append(sj)
+        reach, reached = None, False
+        if rng.random() < 0.3:
+            for _ in range(20):
+                sj = subject(rng, 0)
+                if V.has_unset(sj):
+                    continue
+                try:
+                    if first_match(sj, cases) == "fault":
+                        # only string escapes are documented faults; a number that cannot be read is left to the model comparison
+                        firstf = [a for c in cases for a in c["alts"] if a[0] == "fault"][0]
+                        if firstf[1] in FAULT_STRS:
+                            reach, reached = sj, True
+                        break
+                except RuntimeErr:
+                    pass
+        if reached:
+            subjects.append(reach)
+        env0 = {n: "g" + n for n in NAMES + ["_"]}
+        out, outcome = ["S"], "ok"
+        for j, sj in enumerate(subjects):
+            if reached and j == len(subjects) - 1:
+                outcome = "runtime"
+                break
+            printed, val = match_value(sj, cases, env0)
+            out += printed + ["V " + pyref.pretty(val)]
+        if outcome == "ok":
+            out.append("G " + " ".join(pyref.pretty(env0[n]) for n in NAMES + ["_"]))
+        via = rng.choice(["func", "loop", "records", "unrolled"])
+        if any(isinstance(x, str) and ("\\" in x or '"' in x) for x in subjects):
+            continue
+        lines = []
+        for c in cases:
+            lines.append("  " + case_src(c) + ("," if c["body"] != "block" else rng.choice([",", ""])))
+        mtext = lambda sub: "match (%s) {\n%s\n }" % (sub, "\n".join(lines))
+        head = ['function say(l, v) { print "B", l\n return v }']
+        setnames = "".join(' %s = "g%s"\n' % (n, n) for n in NAMES + ["_"])
+        gline = ' print "G", %s\n' % ", ".join(NAMES + ["_"])
+        doc = "{}"
+        if via == "func":
+            head.append("function mm(subj) { return %s }" % mtext("subj"))
+            body = "BEGIN {\n" + setnames + ' print "S"\n' + "".join(' print "V", mm(%s)\n' % pyref.literal(sj) for sj in subjects) + gline + "}"
+        elif via == "loop":
+            body = ("BEGIN {\n" + setnames + ' print "S"\n subs = [%s]\n for (i = 0; i < %d; i++) {\n print "V", %s\n }\n' % (
+                ", ".join(pyref.literal(sj) for sj in subjects), len(subjects), mtext("subs[i]")) + gline + "}")
+        elif via == "records":
+            doc = V.to_json(subjects)
+            body = "BEGIN {\n" + setnames + ' print "S"\n}\n{\n print "V", %s\n}\nEND {\n' % mtext("$") + gline + "}"
+        else:
+            body = "BEGIN {\n" + setnames + ' print "S"\n' + "".join(' print "V", %s\n' % mtext(pyref.literal(sj)) for sj in subjects) + gline + "}"
+        prog = "\n".join(head + [body])
+        meta = {"prog": prog, "doc": doc, "subject": " ; ".join(pyref.pretty(sj, True) for sj in subjects), "cases": [case_src(c) for c in cases],
+                "expect_outcome": outcome, "expect_stdout": "".join(l + "\n" for l in out), "via": via}
+        return Case(cid, simple_run(cid, prog, [doc]), meta, len(subjects) >= 2, ("fault",))
+    return None
+
+
 FIXED = [
     ([1.0, 2.0], [[("arr", [("id", "x"), ("lit", 3.0)]), ("arr", [("id", "y"), ("lit", 2.0)])]]),
     ([[5.0, 6.0], 2.0], [[("arr", [("arr", [("id", "x"), ("lit", 9.0)]), ("id", "y")]), ("id", "z")]]),
@@ -368,7 +517,11 @@ class C19(Check):
             "alternatives. oracle: first case with a matching alternative, literal = '==', bindings visible in the body only, block "
             "body and no match yield null; plus every pair of 60 special subjects (NaN, +-Inf, -0, rounding results, numeric strings "
             "of every shape, booleans, null) x 27 literals, alone / inside array patterns / as a later alternative: the pattern "
-            "matches exactly when == says so. non-trivial = >= 2 cases and >= 1 case with >= 2 alternatives")
+            "matches exactly when == says so; plus match expressions evaluated 1-5 times (in a function, a loop, per record, unrolled) "
+            "whose cases AFTER the matching one hold literal patterns that cannot be evaluated (strings with an escape other than "
+            "\\n \\t \\\\ or a trailing backslash, numbers too large to read; alone, among alternatives, inside nested array "
+            "patterns shaped after the subject): never touched, on the first and on every later evaluation, and a run-stopping "
+            "fault when a top-level one is reached. non-trivial = >= 2 cases and >= 1 case with >= 2 alternatives")
 
     def generate(self, rng, tier):
         n = 1200 if tier == "quick" else 60000
@@ -388,6 +541,10 @@ class C19(Check):
         for j, (prog, what) in enumerate(progs):
             cid = "e%d" % j
             cases.append(Case(cid, simple_run(cid, prog, []), {"prog": prog, "agree": what}, True))
+        for k in range(400 if tier == "quick" else 8000):
+            c = build_fault(rng, "u%d" % k, rng.choice([1, 2, 3, 4]))
+            if c is not None:
+                cases.append(c)
         for k in range(n):
             subj = subject(rng, rng.choice([0, 1, 2, 2, 3, 3]))
             cl = make_cases(rng, subj)
